@@ -46,7 +46,10 @@ Construct ==
   /\ i <= Len(Traces[tid]) /\ Ev.e = "C"
   /\ pair' = IF Ev.valid THEN [valid |-> TRUE, text |-> Ev.text, bg |-> Ev.bg, large |-> Ev.large, spell |-> Ev.spell]
              ELSE NoPair
+  \* (Ev.text / Ev.bg are the colours the CALLER gave: where a side is an opaque CSS value that the library read as something
+  \*  else than CSS defines, the harness has put the CSS meaning there and says so - C07's clause, a NOTE for the others)
   /\ fails' = fails \cup (IF Ev.valid THEN CompFails(Ev) \cup ReadableFails(Ev) ELSE {"X_ConstructInvalid"})
+                     \cup (IF Ev.valid /\ Ev.cssOverride # <<>> THEN {"C07_GivenColourMisread"} ELSE {})
   /\ i' = i + 1 /\ UNCHANGED <<tid, seen, incon, nt>>
 
 \* dE bound with guard band: "LE", "GT" or "CLOSE"
